@@ -7,6 +7,9 @@ func propC01(c *Ctx, r *Report) {
 	r.NotDec = "determinism of SQLite row order, of the graders in the pegnet dependency, of float arithmetic across architectures"
 	r.Trusted = []string{"go/ssa", "module call graph", "sanitiser table (SortTxIDS, sort.Strings on unique keys)", "commutative sink table (AddToBalance, keyed UPDATE/INSERT)"}
 	runOrderTaint(c, r)
+	// goroutine scheduling: no memory written by the sync goroutine is shared with request handlers
+	r.rule("C01/scheduling", 2, "no unsynchronised location is shared between block processing and API handler goroutines")
+	ruleSharedConflicts(c, newSharedAnalysis(c), r, "C01/scheduling")
 	// process-start dependence of the averaging window (shared with C09)
 	r.rule("C01/window-size", 1, "the incrementally maintained averaging window has the size of a reloaded one")
 	windowSize(c, r, "C01/window-size")
